@@ -942,13 +942,18 @@ def check_caller(rep, repo):
         rep.inconclusive('C06.R4', wn.where, 'with_none helper is inside the interpreted fragment', got=str(u))
         return
     ents = []
+    from .c01 import truthy_of
+    def selects_set_variable(g):
+        """g holds exactly when the decision variable it mentions is set (same accepted forms as C01.R5)"""
+        vvs = {x for x in walk(g) if x[0] == 'attr' and x[2] == 'varValue'}
+        return len(vvs) == 1 and truthy_of(g, next(iter(vvs)))
     from ..shapes import placeholder_extend
     pe = placeholder_extend(rv2)
     if pe is not None:
         # one extend per row: the row's selected pair(s), or [None] when there is none
         rows, chosen = pe
         ok_rows = len(rows) == 1 and rows[0][0][3] == A(lp.MODEL, 'pairs') and rows[0][1] == TRUE
-        ok_sel = len(chosen[1]) == 1 and chosen[1][0][0][3] == rows[0][0] and chosen[2] == chosen[1][0][0] and contains(chosen[1][0][1], lambda x: x[0] == 'attr' and x[2] == 'varValue')
+        ok_sel = len(chosen[1]) == 1 and chosen[1][0][0][3] == rows[0][0] and chosen[2] == chosen[1][0][0] and selects_set_variable(chosen[1][0][1])
         rep.check(ok_rows and ok_sel, 'C06.R4', wn.where, 'the per-student list has one entry per row of pairs: the pair whose variable is set, or None when no variable of the row is set',
                   got=show(rv2)[:160], want='per row: selected pair(s) by varValue, else None', construct='with_none schema')
         return
@@ -959,7 +964,7 @@ def check_caller(rep, repo):
     rows_ok = bool(ents) and all(ch and ch[0][0][3] == A(lp.MODEL, 'pairs') for _, _, _, ch in ents)
     nones = [en for en in ents if en[2] == NONE]
     others = [en for en in ents if en[2] != NONE]
-    uses_var = any(contains(('x', en[2]) + tuple(g for _, g in en[3]), lambda x: x[0] == 'attr' and x[2] == 'varValue') for en in others)
+    uses_var = bool(others) and all(sum(1 for _, g in en[3] if g != TRUE) == 1 and all(selects_set_variable(g) for _, g in en[3] if g != TRUE) for en in others)
     none_neg = len(nones) == 1 and contains(nones[0][3][-1][1], lambda x: x[0] == 'not')
     if none_neg:
         # the "nothing selected" test must be about THIS row: a flag carried over from earlier rows is stale
